@@ -837,6 +837,11 @@ def tconds(fn, n, keep=()):
     return out
 
 
+def tliterals(fn, n, keep=()):
+    """tconds(n) as canonical forms (comparable across functions and spellings)."""
+    return {_bool(ast.parse(l_, mode="eval").body) for l_ in tconds(fn, n, keep)}
+
+
 def anon(fn, node) -> str:
     """Normalised source of node with the function's local variable names replaced by positional placeholders
     (identity of a finding must survive a rename of locals)."""
